@@ -217,6 +217,10 @@ func (maps *trackedMaps) processUnfiltered(ctx context.Context, ef *Filter, filt
 				if err := ef.filterValue(ctx, f, classificationTag, opt...); err != nil {
 					return fmt.Errorf("%s: unable to filter string: %w", op, err)
 				}
+				if fPtr {
+					// the map holds pointers: store a pointer to the filtered value
+					f = f.Addr()
+				}
 				v.SetMapIndex(key, f)
 
 			case ftype == reflect.TypeOf([]uint8{}):
@@ -224,6 +228,9 @@ func (maps *trackedMaps) processUnfiltered(ctx context.Context, ef *Filter, filt
 				f := reflect.Indirect(reflect.ValueOf(&s))
 				if err := ef.filterValue(ctx, f, classificationTag, opt...); err != nil {
 					return fmt.Errorf("%s: unable to filter []byte: %w", op, err)
+				}
+				if fPtr {
+					f = f.Addr()
 				}
 				v.SetMapIndex(key, f)
 
@@ -234,6 +241,9 @@ func (maps *trackedMaps) processUnfiltered(ctx context.Context, ef *Filter, filt
 					return fmt.Errorf("%s: unable to filter wrappers string value: %w", op, err)
 				}
 				vv := reflect.ValueOf(wrapperspb.StringValue{Value: s})
+				if fPtr {
+					vv = reflect.ValueOf(&wrapperspb.StringValue{Value: s})
+				}
 				v.SetMapIndex(key, vv)
 
 			case ftype == reflect.TypeOf(wrapperspb.BytesValue{}):
@@ -243,6 +253,9 @@ func (maps *trackedMaps) processUnfiltered(ctx context.Context, ef *Filter, filt
 					return fmt.Errorf("%s: unable to filter wrappers bytes value: %w", op, err)
 				}
 				vv := reflect.ValueOf(wrapperspb.BytesValue{Value: s})
+				if fPtr {
+					vv = reflect.ValueOf(&wrapperspb.BytesValue{Value: s})
+				}
 				v.SetMapIndex(key, vv)
 
 			case fkind == reflect.Slice:
